@@ -403,6 +403,42 @@ def models_check(rep, hists, res):
                           {"history": hist, "structs": got_structs, "tables": want_structs, "enums": got_enums, "catalog_enums": want_enums})
 
 
+SUBCHECK_WHAT = {
+    "C01": "models.go is generated from a catalog that differs from the schema the DDL history defines (duplicate or missing struct fields follow)",
+    "C02": "the columns a star or RETURNING list expands to are taken from a catalog that differs from the schema the DDL history defines",
+    "C05": "result types are taken from a catalog whose columns differ (name, order, type, nullability) from the schema the DDL history defines",
+    "C06": "parameter types are taken from a catalog whose columns differ from the schema the DDL history defines",
+    "C07": "star expansion lists the columns of a catalog that differs from the schema the DDL history defines",
+    "C09": "the declared type / nullability the Go type is computed from is not the one the DDL history declares",
+    "C10": "names are resolved against a catalog that differs from the schema the DDL history defines (dropped columns accepted, existing ones rejected)",
+}
+
+
+def history_subcheck(rep, prop, seed, n):
+    """Every query-level property quantifies over schemas reached through DDL histories; its oracle reads the
+    catalog sqlc built.  This sub-check ties that catalog to the reference semantics (Spec/PgCatalog.pg_run) on
+    random histories, so that a defect of catalog.Update shows up under the property whose inputs it corrupts.
+    Histories inside C08's known-finding classes are C08's business and skipped here."""
+    rng = random.Random(seed * 7919 + 17)
+    hists = [gen_history(rng, rng.choice([3, 5, 8, 12, 20, 30])) for _ in range(n)]
+    res, verdicts = evaluate(hists)
+    what = SUBCHECK_WHAT.get(prop, "the catalog differs from the schema the DDL history defines")
+    for h, r, v in zip(hists, res, verdicts):
+        wf, known, holds, corr = v
+        if not wf:
+            continue
+        rep.count("ddl-history-subcheck")
+        hist = [s for s, _ in h]
+        if "panic" in r:
+            rep.violation("Go panic while applying a DDL history: " + r["panic"], {"history": hist})
+        elif not holds and known in (0, 99):
+            def still(hp):
+                _, vs = evaluate([hp])
+                return vs[0][2] == 0
+            hp = shrink_prefix(h, still) if len(h) > 1 and len(rep.violations) < 3 else h
+            rep.violation(what, {"history": [s for s, _ in hp], "catalog_sqlc_built": r.get("catalog"), "error": r.get("err")})
+
+
 def run(tier, seed):
     rep = Report(PROP, tier, seed)
     ok, info = prep(PROP)
